@@ -1,2 +1,8 @@
 import RbdlProofs.Lemmas.Rot
 import RbdlProofs.Props.C01
+import RbdlProofs.Props.C02
+import RbdlProofs.Props.C03
+import RbdlProofs.Props.C04
+import RbdlProofs.Props.C05
+import RbdlProofs.Props.C06
+import RbdlProofs.Props.C12
